@@ -22,6 +22,9 @@ type c02Edit struct {
 	name    string
 	reqOnly bool // needs a request map (1b1, 1b2)
 	apply   func(e *signedexchange.Exchange, x *refsxg.Exchange)
+	// failedReads: before signing again, truncated copies of the current file are handed to ReadExchange
+	// (which must fail): a reader that keeps state from a failed call shows it in the next generation
+	failedReads bool
 }
 
 func c02DropField(fs []refsxg.Field, lower string) []refsxg.Field {
@@ -47,6 +50,7 @@ func c02AddValue(fs []refsxg.Field, name, value string) []refsxg.Field {
 
 var c02Edits = []c02Edit{
 	{name: "sign again unchanged", apply: func(e *signedexchange.Exchange, x *refsxg.Exchange) {}},
+	{name: "failed reads of truncated copies, then sign again unchanged", failedReads: true, apply: func(e *signedexchange.Exchange, x *refsxg.Exchange) {}},
 	{name: "set response header X-Edited", apply: func(e *signedexchange.Exchange, x *refsxg.Exchange) {
 		e.ResponseHeaders.Set("X-Edited", "1")
 		x.RespHeaders = append(c02DropField(x.RespHeaders, "x-edited"), c02F("X-Edited", "1"))
@@ -186,6 +190,18 @@ func c02Histories(c *mc.Ctx) {
 		}
 		// next generation: edit the exchange that was read back, sign it again
 		ed := c02Edits[seq[gen]]
+		if ed.failedReads {
+			for _, cut := range []int{len(file) - 1, len(file) - len(cur.x.Payload) - 1, len(file) / 3, 9} {
+				if cut < 0 || cut >= len(file) {
+					continue
+				}
+				func() {
+					defer func() { recover() }() // a panic here is C10's subject
+					signedexchange.ReadExchange(bytes.NewReader(file[:cut]))
+				}()
+				c.Transitions(1)
+			}
+		}
 		nx := *cur.x
 		ed.apply(got, &nx)
 		if err := got.AddSignatureHeader(signer); err != nil {
@@ -204,5 +220,5 @@ func init() {
 	p := props["C02"]
 	p.Harnesses = append(p.Harnesses, &mc.Harness{Name: "C02/histories", Run: c02Histories,
 		Mode: "operation histories: build, sign, write, read, then up to 2 (quick) / 3 (thorough) rounds of {edit a public field, sign again, write, read}"})
-	p.Rule += " C02/histories: version x key x payload length {17,0,16} (rs 16, multi-valued mixed-case header set) x every sequence of at most 2 (quick) / 3 (thorough) edits out of 8 (sign again unchanged, set / add a value to / delete a response header, status 404, other request URL, HEAD, set a request header; the last two for 1b1/1b2) applied to the exchange ReadExchange returned, each followed by AddSignatureHeader, Write, reference parse + ReadExchange (bytes.Reader, 1-byte and data-with-EOF readers) and Verify at {date-1, date, mid, expires, expires+1} before and after; every generation must read back as exactly the edited exchange and verify at exactly the instants of the window."
+	p.Rule += " C02/histories: version x key x payload length {17,0,16} (rs 16, multi-valued mixed-case header set) x every sequence of at most 2 (quick) / 3 (thorough) edits out of 9 (sign again unchanged, the same after failed reads of truncated copies of the file, set / add a value to / delete a response header, status 404, other request URL, HEAD, set a request header; the last two for 1b1/1b2) applied to the exchange ReadExchange returned, each followed by AddSignatureHeader, Write, reference parse + ReadExchange (bytes.Reader, 1-byte and data-with-EOF readers) and Verify at {date-1, date, mid, expires, expires+1} before and after; every generation must read back as exactly the edited exchange and verify at exactly the instants of the window."
 }
